@@ -300,7 +300,8 @@ func (st *Store) Eq(a, b *Term) *Term {
 		oh := st.Extract(o, w-1, lw)
 		ol := st.Extract(o, lw-1, 0)
 		// only when the other side splits cleanly too (constant or concat at the same boundary)
-		if (oh.op != "extract" && ol.op != "extract") || o.op == "const" {
+		wraps := func(t *Term) bool { return t.op == "extract" && t.args[0] == o }
+		if (!wraps(oh) && !wraps(ol)) || o.op == "const" {
 			lo := st.Eq(c.args[1], ol)
 			if lo.isFalse() {
 				return lo
